@@ -178,6 +178,8 @@ TABLE = {
     'g2_encode': ([obj], 'q_g2_encode [{0}]', lst(qlist)),
     'disc_square_net': ([q, q], 'q_disc_square_net {0} {1}', lst(qlist)),
     'const_par_curve': ([q, obj, q, nat], 'q_const_par_curve {0} {1} {2} {3}', res(obj)),
+    'default_obj': ([boo, lst(basis)], 'if {0} then q_default_obj_rat {1} else q_default_obj {1}', obj),
+    'bounding_box': ([obj], 'q_obj_bounding_box {0}', lst(qpair)),
     'number_model': ([lst(natlist)], 'let r := x_number_model {0} in (snd r, fst r)', pair(nat, lst(natlist))),
     'eval_grid': ([q, obj, lst(qlist)], 'q_obj_eval_grid {0} {1} {2}', res(lst(qlist))),
     'eval_pointwise': ([q, obj, lst(qlist)], 'q_obj_eval_pointwise {0} {1} {2}', res(lst(qlist))),
